@@ -13,7 +13,7 @@ shuffle (legitimately shared state), entered with choose_path_string in its own 
 generated host script of continue / choose / continue_maximally operations (<= 4 per flow quick, <= 6 thorough). \
 For two flows ALL interleavings of the two scripts are enumerated (up to 70), for three flows interleavings are \
 sampled; variants add at interleaving points: switching away and straight back, switch_to_default_flow and back, \
-save -> fresh story -> load_state, and remove_flow of a flow that has finished its script. Oracle: each flow's \
+save -> fresh story -> load_state (once, or before every step), and remove_flow of a flow that has finished its script. Oracle: each flow's \
 observations (lines, tags, choices, end) equal those of the same script run alone in a single-flow story, and \
 its globals end with the solo values. Cases whose solo run reports an error are discarded (an unhandled error \
 halts the whole story by design). Non-trivial = interleaving with >= 2 switches in which a flow is parked at a \
@@ -103,7 +103,8 @@ struct Solo {
 }
 
 /// variant: 0 plain, 1 bounce (switch away and back before every op), 2 default-flow bounce,
-/// 3 save -> fresh story -> load at step `at`, 4 remove finished flows as soon as possible
+/// 3 save -> fresh story -> load at step `at`, 4 remove finished flows as soon as possible,
+/// 5 save -> fresh story -> load before EVERY step
 pub fn exec(case: &J, acc: &mut Acc) -> Result<(), Fail> {
     inflight(case);
     let (json_text, meta) = case_story(case)?;
@@ -185,7 +186,7 @@ pub fn exec(case: &J, acc: &mut Acc) -> Result<(), Fail> {
         let mut current: Option<usize> = None;
         let mut switches = 0;
         for (step, &f) in order.iter().enumerate() {
-            if variant == 3 && step == at {
+            if (variant == 3 && step == at) || variant == 5 {
                 // save -> fresh story -> load
                 let s = h.story.save_state().map_err(|e| e.to_string())?;
                 let mut h2 = Host::new(&json_text, meta.clone(), &cfg).map_err(|e| e.to_string())?;
@@ -354,7 +355,7 @@ pub fn run(env: &Env) -> i32 {
                 let base = json!({"source": src, "entries": entries,
                     "scripts": scripts.iter().map(|s| ops_to_json(s)).collect::<Vec<_>>()});
                 for (oi, order) in orders.iter().enumerate() {
-                    for variant in 0..5u64 {
+                    for variant in 0..6u64 {
                         if variant != 0 && (oi + variant as usize) % 3 != 0 {
                             continue; // variants on a third of the interleavings each
                         }
